@@ -41,13 +41,16 @@ class C16(core.Check):
                   "`err` outcome), malformed_is_local (a service cycle over any number of connections is never aborted and every connection ends where it would alone), "
                   "every_site_caught / every_redirect_site_caught (decide over the regenerated raise-site tables: each explicit raise / implicit raiser found on the parse path or in "
                   "Client.redirect is caught inside its function, by Parsent.parseMessage or by the handler around the redirect call, or is one of two audited guarded kinds), "
-                  "raise_table_nontrivial.  The raise-site scan is heuristic; the correspondence fuzz (escaped class; for whole complete deliveries also answers sent and connection "
+                  "raise_table_nontrivial; service loops as folds over the connection table (Service.lean): service_total / wsgi_service_total / bare_service_total (every table, arrival schedule of bytes "
+                  "and closes, cycle count, handler list and responder behaviour: service() returns and equals the per-connection runs), siblings_unaffected (run with connection A vs without: "
+                  "every other entry identical), client_service_total + redirect_classes_caught, loop_handlers_in_source (handler lists regenerated), reconnect_sites_accounted (reconnect path has "
+                  "no handler; sites accounted, gap recorded).  The raise-site scan is heuristic; the correspondence fuzz (escaped class; for whole complete deliveries also answers sent and connection "
                   "kept/closed) backs it.  Socket handling, WSGI responder and BareServer steward logic are covered by the fuzz + oracle only.")
     level_note = ("Trusted: Lean kernel; translator (AST raise-site scan is a heuristic, stated); scripted sockets stand for the kernel; urllib verdicts are parameters; "
                   "name resolution in Client.redirect is scripted (IDNA encoding of the host as the runtime does it, then a fixed address).")
     quick_n = 500
     thorough_n = 20000
-    rule = ("cases: (srv) 1-3 connections to the WSGI Server or the BareServer, each a pipeline of grammar-generated requests, a near-valid table entry (colon without space, "
+    rule = ("cases: (srv) 1-4 connections (interleaved arrivals: one read per connection per service cycle, one or more malformed, some closing) to the WSGI Server or the BareServer, each a pipeline of grammar-generated requests, a near-valid table entry (colon without space, "
             "signed / 0x / non-hex chunk size, chunk extension, bad port / IPv6, bad method / version, 101 headers, 66 kB line, non UTF-8 body) or mutated / raw random bytes, "
             "fragmented per service cycle, some closing; (cli) the Client on a response table (redirects without / with bad / relative / insecure Location, 100-continue, bad UTF-8 "
             "event, bad chunk) or generated / mutated responses; (req/resp) parser-level fuzz.  non-trivial = some bytes and at least one decision; distinct by request line")
@@ -109,7 +112,7 @@ class C16(core.Check):
         for _ in range(n):
             k = rng.random()
             if k < 0.5:
-                yield ("srv", rng.choice(["wsgi", "bare"]), tuple(self._conn(rng) for _ in range(rng.choice([1, 2, 2, 3]))))
+                yield ("srv", rng.choice(["wsgi", "bare"]), tuple(self._conn(rng) for _ in range(rng.choice([1, 2, 2, 3, 3, 4]))))
             elif k < 0.75:
                 m = rng.random()
                 if m < 0.35:        # redirect with a Location from the URL grammar; sometimes the redirected exchange goes on
